@@ -166,13 +166,18 @@ Section LV.
                 forall v, In v Q -> v = n_id s \/
                                    exists p, peer_get v (l_peers s) = Some p /\ n_commit s <= pr_match p /\ pjust s v (pr_match p).
 
+  (* the commit index was raised to a position at which the log agrees in term with the delivered entries (an installed snapshot
+     whose acknowledgement was lost in a crash) *)
+  Definition ic_ev (s : node) : Prop :=
+    exists cm a, DC cm /\ inp = Some a /\ p_term (n_p s) = ai_term a /\ n_commit s <= cm /\ resp_ok RT (p_log (n_p s)) (n_commit s).
+
   Definition pk (s : node) : Prop :=
     pasc (l_peers s) /\ (forall p, In p (l_peers s) -> pr_id p <> n_id s) /\
     forall p, In p (l_peers s) -> pjust s (pr_id p) (pr_match p).
 
   Definition ext (s : node) : Prop :=
     Forall (cm_msg (n_commit s)) (n_msgs s) /\
-    True /\ (n_commit s <= n_commit s0 \/ fc_ev s \/ lead_ev s) /\
+    True /\ (n_commit s <= n_commit s0 \/ fc_ev s \/ lead_ev s \/ ic_ev s) /\
     (n_role s = Leader -> pk s).
 
   Record inv (s : node) : Prop := mk_inv {
@@ -251,16 +256,17 @@ Section LV.
   Proof.
     intros [E1 [E2 [E3 E4]]] Hc Hp Hi Hl Ht Hcf Hr Hm Hn. unfold ext. rewrite Hc.
     split; [rewrite Hm; apply Forall_app; auto|]. split; [exact E2|]. split.
-    - destruct E3 as [X | [X | X]]; [left; exact X | right; left | ].
+    - destruct E3 as [X | [X | [X | X]]]; [left; exact X | right; left | | right; right; right].
       + destruct X as [cm [idx [h [m0 [A1 [A2 [A3 [A4 A5]]]]]]]]. exists cm, idx, h, m0. rewrite Hc, Hm. repeat split; auto.
         apply in_or_app. left. exact A3.
-      + destruct Hcf as [Hcf | Hcf]; [right; right | left; rewrite Hcf; apply N.le_refl].
+      + destruct Hcf as [Hcf | Hcf]; [right; right; left | left; rewrite Hcf; apply N.le_refl].
         destruct X as [B1 [B2 [B3 [c [Q [B4 B5]]]]]]. unfold lead_ev, pjust, strong, llen in *. rewrite Hc, Hl, Ht, Hcf, Hp, Hi.
         split; [| split; [exact B2 | split; [exact B3 | exists c, Q; split; [exact B4 | exact B5]]]].
         destruct Hr as [Hr | [Hr [St | Nl]]].
         * rewrite Hr. exact B1.
         * right. exact St.
         * destruct B1 as [B1 | B1]; [contradiction | right; exact B1].
+      + destruct X as [cm [a [C1 [C2 [C3 [C4 C5]]]]]]. exists cm, a. rewrite Hc, Hl, Ht. auto.
     - intro Hl'. destruct Hr as [Hr | [Hr _]]; [| congruence]. rewrite Hr in Hl'. specialize (E4 Hl').
       unfold pk, pjust, strong in *. rewrite Hp, Hi, Ht. exact E4.
   Qed.
@@ -356,6 +362,12 @@ Section LV.
       + unfold samev. simpl. destruct m; simpl in *; try contradiction; repeat split; reflexivity.
   Qed.
 
+  Lemma postQ_do_mut_light_c s m : inv s -> light m -> postQ (fun s1 => samev s s1 /\ n_commit s1 = n_commit s) (do_mut m s).
+  Proof.
+    intros I Hl. pose proof (postQ_do_mut_light s m I Hl) as H. destruct (do_mut_cases m s) as [E | E]; rewrite E in *; simpl in *; auto.
+    destruct H as [A B]. split; auto.
+  Qed.
+
   Lemma post_do_mut_light s m : inv s -> light m -> post (do_mut m s).
   Proof. intros. eapply postQ_post. apply postQ_do_mut_light; auto. Qed.
 
@@ -363,7 +375,7 @@ Section LV.
 
   (* ---------------------------------------------------------------- commit *)
   Definition cjust (s : node) (i : N) : Prop :=
-    forall r c, i <= n_commit s0 \/ fc_ev (set_commit s i r c) \/ lead_ev (set_commit s i r c).
+    forall r c, i <= n_commit s0 \/ fc_ev (set_commit s i r c) \/ lead_ev (set_commit s i r c) \/ ic_ev (set_commit s i r c).
 
   Lemma inv_commit s i r c : inv s -> n_commit s <= i -> cjust s i -> inv (set_commit s i r c).
   Proof.
@@ -470,7 +482,7 @@ Section LV.
   Proof.
     intros I Hmono Hj Hl. destruct I. constructor; simpl; auto.
     destruct v_ext0 as [E1 [E2 [E3 E4]]]. unfold ext. simpl. split; [exact E1|]. split; [exact E2|]. split.
-    - destruct E3 as [X | [X | X]]; [left; exact X | right; left; exact X | right; right].
+    - destruct E3 as [X | [X | [X | X]]]; [left; exact X | right; left; exact X | right; right; left | right; right; right; exact X].
       destruct X as [B1 [B2 [B3 [c [Q [B4 [B5 [B6 B7]]]]]]]]. unfold lead_ev. simpl.
       split; [exact B1|]. split; [exact B2|]. split; [exact B3|]. exists c, Q. repeat split; auto.
       intros v Hv. destruct (B7 v Hv) as [Y | [p [Y1 [Y2 Y3]]]]; [left; exact Y | right].
@@ -553,7 +565,7 @@ Section LV.
     destruct (st_term_wf _ _ _ _ (v_snap s I) (v_wf s I) Hst) as [_ [Hle [_ Ta]]].
     assert (Hli : mi <= last_index (n_p s)) by (rewrite (last_index_wf _ (v_snap s I) (v_wf s I)); exact Hle).
     destruct (majority_evidence s mi Hf P1 P2 Hli) as [c [Q [B1 [B2 [B3 [B4 B5]]]]]]. split; [| exact B5].
-    intros r cc. right. right. unfold lead_ev. simpl. split; [left; exact Hr|]. split; [exact Hle|]. split; [rewrite <- Ht; exact Ta|].
+    intros r cc. right. right. left. unfold lead_ev. simpl. split; [left; exact Hr|]. split; [exact Hle|]. split; [rewrite <- Ht; exact Ta|].
     exists c, Q. repeat split; auto.
     intros v Hv. destruct (B4 v Hv) as [X | [p [X1 X2]]]; [left; exact X | right]. exists p. split; auto. split; auto.
     destruct (peer_get_some _ _ _ X1) as [Y1 Y2]. rewrite <- Y2. apply P3. exact Y1.
@@ -663,7 +675,7 @@ Section LV.
     - intro E. right. right. split; auto. destruct (v_rt0 E) as [X | [X | [_ X]]]; congruence.
     - eapply LR_nonfollower; [| exact v_lr0]. congruence.
     - destruct v_ext0 as [E1 [E2 [E3 E4]]]. unfold ext. simpl. split; [exact E1|]. split; [exact E2|]. split.
-      + destruct E3 as [X | [X | X]]; [left; exact X | right; left; exact X | exfalso].
+      + destruct E3 as [X | [X | [X | X]]]; [left; exact X | right; left; exact X | exfalso | right; right; right; exact X].
         destruct X as [[B1 | [B1 B2]] _]; [congruence|].
         destruct (v_rt0 B2) as [X | [X | [X _]]]; congruence.
       + intros _. unfold pk. simpl. split; [exact Logic.I|]. split; intros p [].
@@ -829,6 +841,7 @@ Section LV.
     Hypothesis Ht1 : 1 <= p_term (n_p s).
     Hypothesis Hta : term_at (p_log (n_p s0)) pi pt.
     Hypothesis Hns : ~ strong s.
+    Hypothesis Hcm0 : n_commit s = n_commit s0.
 
     Let L0 := p_log (n_p s0).
     Let pin := N.to_nat pi.
@@ -845,9 +858,7 @@ Section LV.
     Proof.
       intros Hc Ry My. destruct (v_ext s I) as [E1 [E2 [E3 E4]]]. unfold ext. rewrite Hc, My, Ry.
       split; [constructor|]. split; [exact E2|]. split; [| intro X; discriminate].
-      left. destruct E3 as [X | [X | X]]; [exact X | exfalso | exfalso].
-      - destruct X as [cm [idx [h [m0 [_ [_ [X _]]]]]]]. rewrite Hm in X. contradiction.
-      - destruct X as [[X | X] _]; [congruence | contradiction].
+      left. rewrite Hcm0. apply N.le_refl.
     Qed.
 
     Lemma inv_trunc c y :
@@ -947,10 +958,10 @@ Section LV.
 
   Lemma post_handle_app_ents s from pi pt cm oes :
     inv s -> n_msgs s = [] -> n_role s = Follower -> p_log (n_p s) = p_log (n_p s0) -> in_ok s pi pt oes -> ~ strong s ->
-    DC cm ->
+    DC cm -> n_commit s = n_commit s0 ->
     post (handle_app_ents s from pi pt cm oes).
   Proof.
-    intros I Hm Hr Hl [[Hrt0 Hrt] Hin] Hns Hdc. unfold handle_app_ents.
+    intros I Hm Hr Hl [[Hrt0 Hrt] Hin] Hns Hdc Hcm0. unfold handle_app_ents.
     assert (Hfmc : forall x mi, inv x -> resp_ok RT (p_log (n_p x)) mi ->
                      post (follower_maybe_commit (send x from (AppEntsResp true mi 0)) cm mi)).
     { intros x mi Ix Hok. eapply post_follower_maybe_commit with (h := 0); [apply inv_resp; auto | exact Hdc | | ].
@@ -1074,13 +1085,14 @@ Section LV.
   Qed.
 
   (* ---------------------------------------------------------------- follower *)
-  Lemma postQ_follower_note_leader s from : inv s -> postQ (samev s) (follower_note_leader s from).
+  Lemma postQ_follower_note_leader s from :
+    inv s -> postQ (fun s1 => samev s s1 /\ n_commit s1 = n_commit s) (follower_note_leader s from).
   Proof.
     intro I. unfold follower_note_leader.
-    eapply postQ_bindQ with (Q := samev s).
-    - destruct (p_vote (n_p s) =? 0); [apply postQ_do_mut_light; auto; exact Logic.I | apply postQ_ret; auto using samev_refl].
-    - intros s1 I1 S1. destruct (n_leader s1 =? 0).
-      + apply postQ_ret; [vol|]. eapply samev_trans; [exact S1|]. unfold samev; simpl; repeat split; reflexivity.
+    eapply postQ_bindQ with (Q := fun s1 => samev s s1 /\ n_commit s1 = n_commit s).
+    - destruct (p_vote (n_p s) =? 0); [apply postQ_do_mut_light_c; auto; exact Logic.I | apply postQ_ret; auto using samev_refl].
+    - intros s1 I1 [S1 C1]. destruct (n_leader s1 =? 0).
+      + apply postQ_ret; [vol|]. split; [| simpl; exact C1]. eapply samev_trans; [exact S1|]. unfold samev; simpl; repeat split; reflexivity.
       + destruct (negb (n_leader s1 =? from)); [exact Logic.I | apply postQ_ret; auto].
   Qed.
 
@@ -1112,11 +1124,12 @@ Section LV.
 
   Lemma post_handle_follower s m :
     inv s -> n_msgs s = [] -> n_role s = Follower -> p_log (n_p s) = p_log (n_p s0) -> mcond s m -> ~ strong s ->
+    n_commit s = n_commit s0 ->
     post (handle_follower s m).
   Proof.
-    intros I Hm Hr Hl Hc Hns. unfold handle_follower. unfold mcond in Hc. destruct (m_body m).
+    intros I Hm Hr Hl Hc Hns Hcm0. unfold handle_follower. unfold mcond in Hc. destruct (m_body m).
     - destruct Hc as [Hdc Hc]. eapply postQ_bind; [apply postQ_follower_note_leader; auto|].
-      intros s1 I1 [A1 [A2 [A3 [A4 [A5 [A6 A7]]]]]]. apply post_handle_app_ents; auto; try congruence.
+      intros s1 I1 [[A1 [A2 [A3 [A4 [A5 [A6 A7]]]]]] Ac1]. apply post_handle_app_ents; auto; try congruence.
       + unfold in_ok in *. destruct Hc as [Hc0 Hc]. split; auto. destruct ents; auto. rewrite A2. exact Hc.
       + unfold strong in *. rewrite A2. exact Hns.
     - simpl. exact I.
@@ -1212,10 +1225,10 @@ Section LV.
 
   Lemma post_handle_by_role s m :
     inv s -> n_msgs s = [] -> p_log (n_p s) = p_log (n_p s0) -> mcond s m -> (n_role s = Leader -> strong s) ->
-    (n_role s = n_role s0 \/ p_term (n_p s) <> p_term (n_p s0)) ->
+    (n_role s = n_role s0 \/ p_term (n_p s) <> p_term (n_p s0)) -> n_commit s = n_commit s0 ->
     post (handle_by_role s m).
   Proof.
-    intros I Hm Hl Hc Hs Hd. unfold handle_by_role. destruct (n_role s) eqn:Er.
+    intros I Hm Hl Hc Hs Hd Hcm0. unfold handle_by_role. destruct (n_role s) eqn:Er.
     - apply post_handle_follower; auto. intros [X Y]. destruct Hd; congruence.
     - apply post_handle_candidate; auto.
     - apply post_handle_leader; auto. unfold mcond in Hc. destruct (m_body m); auto.
@@ -1243,11 +1256,6 @@ Section LV.
     - destruct success; auto. rewrite E. exact H.
   Qed.
 
-  Lemma postQ_do_mut_light_c s m : inv s -> light m -> postQ (fun s1 => samev s s1 /\ n_commit s1 = n_commit s) (do_mut m s).
-  Proof.
-    intros I Hl. pose proof (postQ_do_mut_light s m I Hl) as H. destruct (do_mut_cases m s) as [E | E]; rewrite E in *; simpl in *; auto.
-    destruct H as [A B]. split; auto.
-  Qed.
 
   Lemma post_handle_msg s m :
     inv s -> n_msgs s = [] -> p_log (n_p s) = p_log (n_p s0) -> n_role s = n_role s0 -> p_term (n_p s) = p_term (n_p s0) ->
@@ -1285,7 +1293,8 @@ Section LV.
             + simpl. congruence.
             + apply mok3_mcond; auto.
             + simpl. discriminate.
-            + right. simpl. lia. }
+            + right. simpl. lia.
+            + simpl. congruence. }
         destruct (m_body m); try exact Logic.I; apply Hsave.
       + apply N.ltb_ge in Egt. cbv beta iota delta [bind].
         apply post_handle_by_role; auto; try congruence.
